@@ -1173,6 +1173,17 @@ func (fc *funcConverter) convertToStmts(ssaFunc *ssa.Function) ([]ast.Stmt, erro
 			block.Body = newBody
 		}
 
+		if len(block.Phi) > 1 {
+			// The phi nodes of a successor all read the values from before the jump,
+			// so assign them at once: "a = b; b = a" would break "a, b = b, a".
+			parallel := &ast.AssignStmt{Tok: token.ASSIGN}
+			for _, stmt := range block.Phi {
+				assign := stmt.(*ast.AssignStmt)
+				parallel.Lhs = append(parallel.Lhs, assign.Lhs...)
+				parallel.Rhs = append(parallel.Rhs, assign.Rhs...)
+			}
+			block.Phi = []ast.Stmt{parallel}
+		}
 		blockStmts := &ast.BlockStmt{List: append(block.Body, block.Phi...)}
 		blockStmts.List = append(blockStmts.List, block.Exit)
 		if block.HasRefs {
